@@ -287,6 +287,10 @@ func main() {
 		neg, sks := skolemNeg(o.Goal)
 		asserts = append(asserts, neg)
 		asserts = append(asserts, instantiate(o.PC, sks)...)
+		// loop counters (and their neighbours) are the usual witnesses of existential goals and
+		// the usual instances of range-quantified invariants
+		cands := loopIndexTerms(asserts)
+		asserts = append(asserts, instantiate(append(append([]*Term{}, o.PC...), flattenAnd(neg)...), cands)...)
 		var gv []*Term
 		if o.Kind != "cover" {
 			gv = append(append(append([]*Term{}, o.Inputs...), sks...), heapReads(asserts)...)
@@ -441,7 +445,76 @@ func skolemNeg(goal *Term) (*Term, []*Term) {
 		}
 		break
 	}
-	return And(append(ants, Not(goal))...), sks
+	// existential facts among the assumed antecedents get witnesses too
+	var flat []*Term
+	var split func(t *Term)
+	split = func(t *Term) {
+		switch {
+		case t.Op == "and":
+			for _, a := range t.Args {
+				split(a)
+			}
+		case t.Op == "exists":
+			m := map[*Term]*Term{}
+			for _, b := range t.Bound {
+				sk := Fresh("sk$"+strings.SplitN(b.Name, "?", 2)[0], b.Sort)
+				m[b] = sk
+				sks = append(sks, sk)
+			}
+			split(Subst(t.Args[0], m))
+		default:
+			flat = append(flat, t)
+		}
+	}
+	for _, a := range ants {
+		split(a)
+	}
+	return And(append(flat, Not(goal))...), sks
+}
+
+func flattenAnd(t *Term) []*Term {
+	if t.Op == "and" {
+		var out []*Term
+		for _, a := range t.Args {
+			out = append(out, flattenAnd(a)...)
+		}
+		return out
+	}
+	if t.Op == "not" && t.Args[0].Op == "exists" && len(t.Args[0].Bound) == 1 {
+		// not exists x. B  ==  forall x. not B
+		return []*Term{Forall(t.Args[0].Bound, Not(t.Args[0].Args[0]))}
+	}
+	return []*Term{t}
+}
+
+// loopIndexTerms: havocked loop counters occurring in the VC, with their successor and predecessor.
+func loopIndexTerms(ts []*Term) []*Term {
+	seen := map[*Term]bool{}
+	var vars []*Term
+	var rec func(t *Term)
+	rec = func(t *Term) {
+		if seen[t] {
+			return
+		}
+		seen[t] = true
+		if t.Op == "var" && t.Sort == SInt && (strings.HasPrefix(t.Name, "loop$rangeindex") || strings.HasPrefix(t.Name, "loop$i!") || strings.HasPrefix(t.Name, "loop$j!") || strings.HasPrefix(t.Name, "loop$k!") || strings.HasPrefix(t.Name, "loop$idx")) {
+			vars = append(vars, t)
+		}
+		for _, a := range t.Args {
+			rec(a)
+		}
+	}
+	for _, t := range ts {
+		rec(t)
+	}
+	if len(vars) > 2 {
+		vars = vars[:2]
+	}
+	var out []*Term
+	for _, v := range vars {
+		out = append(out, v, Add(v, IntC(1)))
+	}
+	return out
 }
 
 // instantiate adds, for every universally quantified hypothesis over one integer variable,
